@@ -46,6 +46,11 @@ impl Vertex {
             subst: a[6],
         }
     }
+    /// the sub-cube used for generic definitions: alloc {std, ::a::b} x docs x codec x root, compact and
+    /// bits paths set, no substitute
+    pub fn generic_subcube() -> Vec<Vertex> {
+        Vertex::all().into_iter().filter(|v| v.alloc != 1 && v.compact == 1 && v.bits == 1 && v.subst == 0).collect()
+    }
     pub fn all() -> Vec<Vertex> {
         let mut v = vec![Vertex { alloc: 0, docs: 0, codec: 0, root: 0, compact: 0, bits: 0, subst: 0 }];
         for (d, (_, n)) in DIMS.iter().enumerate() {
@@ -139,6 +144,9 @@ fn has_ident(ts: TokenStream, name: &str) -> bool {
 #[derive(Clone, Debug, Serialize, Deserialize)]
 pub struct SwitchCase {
     pub prog: Program,
+    /// explore only the generic sub-cube (16 vertices)
+    #[serde(default)]
+    pub subcube: bool,
 }
 
 fn heap_suffixes() -> Vec<&'static str> {
@@ -187,6 +195,15 @@ fn check_vertex(v: &Vertex, prog: &Program, tokens: &str, ctx: &mut Ctx, replay:
         }
     };
     let size = prog.to_source().len();
+    // codec off: no codec attribute anywhere (fields, variants, items, marker fields)
+    if v.codec == 0 && squash(&strip_attr(ts.clone(), "codec").to_string()) != squash(&ts.to_string()) {
+        ctx.violation(
+            "C09/codec/attribute-emitted-when-off",
+            "codec attributes are switched off but the output contains a #[codec(..)] attribute".to_string(),
+            replay(v),
+            size,
+        );
+    }
     // alloc
     if v.alloc != 0 && has_ident(ts.clone(), "std") {
         ctx.violation(
@@ -256,12 +273,34 @@ fn check_vertex(v: &Vertex, prog: &Program, tokens: &str, ctx: &mut Ctx, replay:
         let mut p = vec![v.root_name().to_string()];
         p.extend(t.ty.path.segments.iter().cloned());
         let Some(item) = em.items.get(&p) else { continue };
-        let is_compact = |id: u32| matches!(el.registry.resolve(id).map(|x| &x.type_def), Some(TypeDef::Compact(_)));
+        // a prelude `Cow<T>` is transparent: the field is compact when the borrowed type is
+        let is_compact = |id: u32| {
+            let mut id = id;
+            loop {
+                let Some(t) = el.registry.resolve(id) else { return false };
+                if crate::shape::is_prelude_cow(t) {
+                    if let Some(Some(inner)) = t.type_params.first().map(|p| p.ty) {
+                        id = inner.id;
+                        continue;
+                    }
+                }
+                return matches!(t.type_def, TypeDef::Compact(_));
+            }
+        };
+        // a field whose type is a parameter of the definition is compact or not per instantiation, not per field
+        let is_param = |gf: &FieldAst| {
+            let ty = &gf.ty;
+            let s = squash(&quote::quote!(#ty).to_string());
+            s.starts_with('_') && s[1..].chars().all(|c| c.is_ascii_digit())
+        };
         let mut check_fields = |fs: &[scale_info::Field<scale_info::form::PortableForm>], gs: &[FieldAst], what: &str, ctx: &mut Ctx| {
             for (rf, gf) in fs.iter().zip(gs.iter()) {
                 let has_codec = gf.attrs.iter().any(|a| a.starts_with("#[codec("));
                 if v.codec == 0 && has_codec {
                     ctx.violation("C09/codec/attribute-emitted-when-off", format!("{what}: field carries {:?}", gf.attrs), replay(v), size);
+                }
+                if is_param(gf) {
+                    continue;
                 }
                 if v.codec == 1 && is_compact(rf.ty.id) && !gf.compact {
                     ctx.violation("C09/codec/compact-marker-missing", format!("{what}: compact field without #[codec(compact)]"), replay(v), size);
@@ -299,7 +338,8 @@ pub fn check_case(c: &SwitchCase, ctx: &mut Ctx) {
     let reg = elaborate(&c.prog).registry;
     let replay = |v: &Vertex| json!({"check": "C09", "case": serde_json::to_value(c).unwrap(), "vertex": serde_json::to_value(v).unwrap(), "source": c.prog.to_source()});
     let mut out: HashMap<Vertex, Result<String, String>> = HashMap::new();
-    for v in Vertex::all() {
+    let vertices = if c.subcube { Vertex::generic_subcube() } else { Vertex::all() };
+    for v in vertices.iter().copied() {
         ctx.exec(1);
         let r = match generate(&reg, &v.spec().build()) {
             GenOutcome::Ok { tokens } => Ok(tokens),
@@ -316,10 +356,13 @@ pub fn check_case(c: &SwitchCase, ctx: &mut Ctx) {
     }
     // edges
     let size = c.prog.to_source().len();
-    for v in Vertex::all() {
+    for v in vertices.iter().copied() {
         for (d, (dname, n)) in DIMS.iter().enumerate() {
             for k in (v.get(d) + 1)..*n {
                 let w = v.set(d, k);
+                if !out.contains_key(&w) {
+                    continue;
+                }
                 ctx.note("cube edges checked", 1);
                 let (Ok(a), Ok(b)) = (&out[&v], &out[&w]) else {
                     match (&out[&v], &out[&w]) {
@@ -389,12 +432,27 @@ pub fn run(tier: &str, seed: u64) -> i32 {
     let mut report = Report::new("C09", tier, seed, "model_checking");
     let thorough = tier == "thorough";
     let d = DArms { max_depth: 2 };
-    let (all, _, _) = enumerate(&d, if thorough { 2 } else { 1 }, 1_000_000);
+    let (all, _, _) = enumerate(&d, 2, 1_000_000);
     let mut cases = vec![];
+    fn mentions_compact(t: &Ty) -> bool {
+        match t {
+            Ty::Compact(_) => true,
+            Ty::Named(_, a) | Ty::Tuple(a) => a.iter().any(mentions_compact),
+            Ty::Vec(x) | Ty::VecDeque(x) | Ty::Box(x) | Ty::Cow(x) | Ty::BTreeSet(x) | Ty::BinaryHeap(x) | Ty::Array(x, _) | Ty::Option(x) | Ty::Range(x) | Ty::RangeInclusive(x) => {
+                mentions_compact(x)
+            }
+            Ty::Result(a, b_) | Ty::BTreeMap(a, b_) => mentions_compact(a) || mentions_compact(b_),
+            _ => false,
+        }
+    }
     for (depth, s) in &all {
         // every heap-allocated prelude type at field level, nested and as a generic argument;
         // plus all depth-0 leaves (compact, bit sequences, docs)
         if !(mentions_heap(&s.expr) || *depth == 0) {
+            continue;
+        }
+        // quick tier: of the twice-wrapped types only those around a compact (the codec switch meets a wrapper)
+        if !thorough && *depth >= 2 && !mentions_compact(&s.expr) {
             continue;
         }
         for pos in [Position::NamedStruct, Position::TupleVariant, Position::NamedVariant] {
@@ -407,7 +465,7 @@ pub fn run(tier: &str, seed: u64) -> i32 {
                 h.docs = vec!["host doc".into(), "".into(), "second paragraph".into()];
             }
             prog.defs[D_N].docs = vec![" indented".into()];
-            cases.push(SwitchCase { prog });
+            cases.push(SwitchCase { prog, subcube: false });
         }
     }
     let n_vertices = Vertex::all().len();
@@ -421,6 +479,31 @@ pub fn run(tier: &str, seed: u64) -> i32 {
         check_case,
     );
     st.states = st.states * n_vertices as u64;
+    st.transitions = st.notes.get("cube edges checked").copied().unwrap_or(0);
+    report.add(st);
+    // generic definitions (unused / skipped parameters, marker fields, compact parameters) through the sub-cube
+    let dg = crate::families::DGeneric {
+        max_fields: 2,
+        max_insts: 2,
+        include_cf3: false,
+        body_forms: crate::families::ALL_BODY_FORMS.to_vec(),
+        param_forms: crate::families::ALL_PARAM_FORMS.to_vec(),
+    };
+    let (gall, _, _) = enumerate(&dg, if thorough { 2 } else { 1 }, 2_000_000);
+    let gcases: Vec<SwitchCase> = gall
+        .iter()
+        .filter(|(_, s)| crate::checks::c05::wf5_ok(s))
+        .map(|(_, s)| SwitchCase { prog: s.program(), subcube: true })
+        .collect();
+    let n_sub = Vertex::generic_subcube().len();
+    let mut st = sweep(
+        &format!("D-generic(construction depth <= {}) x generic sub-cube ({n_sub} vertices: alloc x docs x codec x root; every edge a transition)", if thorough { 2 } else { 1 }),
+        &gcases,
+        Duration::from_secs(if thorough { 1200 } else { 150 }),
+        |c| json!({"program": c.prog.to_source()}),
+        check_case,
+    );
+    st.states = st.states * n_sub as u64;
     st.transitions = st.notes.get("cube edges checked").copied().unwrap_or(0);
     report.add(st);
     report.assumptions = vec![
